@@ -130,8 +130,9 @@ def _parse_atom_attributes(
         RAD: _parse_atom_property_values(line, "RAD"),
     }
     for key, val in optional_attrs.items():
-        if val:
-            atom_attrs[key] = val.pop()
+        # An explicitly written default (CHG=0, RAD=0, MASS=0) means "not set".
+        if val and val[-1] != 0:
+            atom_attrs[key] = val[-1]
 
     return atom_attrs, False
 
